@@ -25,6 +25,10 @@ package execution
 //@   ensures[C08] err-is-unsupported: result2 != nil ==> result2.isNS && result0 == nil
 //@   ensures[C09,C16] plain: istype(t.VectorSelector, *parser.VectorSelector) ==> result2 == nil && ref(result0) == t.VectorSelector.data && len(result1) == 0
 //@   ensures ok-nonnil: result2 == nil ==> result0 != nil
+//@   ensures[C09] filters-wellformed: result2 == nil ==> matchersOK(result1)
+//@   ensures[C09,C16] filtered: istype(t.VectorSelector, *logicalplan.FilteredSelector) ==> result2 == nil &&
+//@       result0 == cast(t.VectorSelector, *logicalplan.FilteredSelector).VectorSelector &&
+//@       sameslice(result1, cast(t.VectorSelector, *logicalplan.FilteredSelector).Filters)
 
 // newShardedVectorSelector: one vector selector per shard i of numShards = max(1, GOMAXPROCS/2);
 // every shard gets the same selector, options and offset (C02, C11).
